@@ -53,7 +53,7 @@ def shards(tier):
 
 def required_counters(tier):
     return {
-        "modules.transformed_with_warnings_as_errors": 100, "modules.validated": 800,
+        "modules.transformed_with_warnings_as_errors": 100, "concurrent_transform.modules": 50, "modules.validated": 800,
         "decorators.function": 5000,
         "decorators.class": 500,
         "async_defs_untouched": 20,
@@ -338,6 +338,75 @@ def validate(rec, source, path, tc_string, label):
     return True
 
 
+def full_code_table(code):
+    """every code object with its first line and its complete (start, end, line) table"""
+    out = []
+    stack = [code]
+    while stack:
+        c = stack.pop()
+        out.append((c.co_qualname, c.co_firstlineno, tuple(c.co_lines()), c.co_code))
+        for k in c.co_consts:
+            if hasattr(k, "co_code"):
+                stack.append(k)
+    return sorted(out, key=lambda t: (t[0], t[1]))
+
+
+def arm_concurrent_transform(rec, rng):
+    """several modules of ONE hook (one Typechecker object, as install_import_hook shares it) are compiled at the same
+    time in different threads - what an application that imports its plug-ins from a thread pool does.  Every result is
+    byte-for-byte what the same module gives when compiled alone."""
+    import threading
+
+    from jaxtyping import _import_hook as H
+
+    tc = H.Typechecker("typeguard.typechecked")
+    sources = []
+    for i in range(6):
+        src = GM.gen_static_module(rng)
+        try:
+            compile(src, f"<conc {i}>", "exec", dont_inherit=True)
+        except Exception:  # noqa
+            continue
+        # push the definitions to very different line numbers in each module
+        sources.append(("\n" * rng.randrange(0, 400)) + src)
+    if len(sources) < 3:
+        return
+    loaders = [H._JaxtypingLoader(f"jtv_conc_{i}", f"/jtv/conc_{i}.py", typechecker=tc) for i in range(len(sources))]
+    alone = [full_code_table(ld.source_to_code(src.encode(), ld.path)) for ld, src in zip(loaders, sources)]
+    old = sys.getswitchinterval()
+    sys.setswitchinterval(1e-6)
+    try:
+        for rnd in range(8):
+            results = [None] * len(sources)
+            start = threading.Barrier(len(sources))
+
+            def work(i):
+                try:
+                    start.wait(10)
+                    results[i] = ("ok", full_code_table(loaders[i].source_to_code(sources[i].encode(), loaders[i].path)))
+                except BaseException as e:  # noqa
+                    results[i] = ("exc", f"{type(e).__name__}: {str(e)[:120]}")
+
+            ts = [threading.Thread(target=work, args=(i,)) for i in range(len(sources))]
+            for t in ts:
+                t.start()
+            for t in ts:
+                t.join(120)
+            rec.count("concurrent_transform.rounds")
+            for i, r in enumerate(results):
+                rec.count("concurrent_transform.modules")
+                rec.case(("concurrent-transform", rnd, i), True)
+                if r is None or r[0] == "exc":
+                    rec.violation("compile", {"concurrent_transform": True, "round": rnd}, f"module {i} of {len(sources)} compiled concurrently through one hook: {r and r[1]} (alone it compiles)", mechanism="concurrent-transform-raises")
+                    return
+                if r[1] != alone[i]:
+                    diff = next(((a[0], a[1], b[1]) for a, b in zip(alone[i], r[1]) if a != b), None)
+                    rec.violation("tree-differs", {"concurrent_transform": True, "round": rnd}, f"module {i} of {len(sources)} compiled concurrently through one hook differs from the same module compiled alone (first differing code object: {diff})", mechanism="concurrent-transform-differs-from-alone")
+                    return
+    finally:
+        sys.setswitchinterval(old)
+
+
 def validate_reused_transformer(rec, sources, tc_string):
     """IPython keeps ONE JaxtypingTransformer in shell.ast_transformers and calls .visit() on every cell:
     each cell must get the complete set of additions, whatever was transformed before"""
@@ -587,6 +656,8 @@ def run_shard(rec, seed, shard, tier):
         validate_reused_transformer(rec, [GM.gen_static_module(g) for _ in range(3)], tcs[k % 2])
     if shard["i"] % 4 == 1:
         ipython_arm(rec, random.Random(f"{seed}/C10/{shard['i']}/ipython"))
+    if shard["i"] % 4 == 2:
+        arm_concurrent_transform(rec, random.Random(f"{seed}/C10/{shard['i']}/concurrent"))
     scratch = tempfile.mkdtemp(prefix="jtv_c10_")
     try:
         with open(os.path.join(scratch, "jtv_c10_spy.py"), "w") as f:
